@@ -1,7 +1,7 @@
 #!/bin/bash
 # usage: harness/seedcampaign.sh [tier] [name-glob] [jobs]  -- every stored seeded change vs its property's check, each on a scratch copy of
 # /repo/src with the patch applied, using a PRIVATE copy of the Lean project and a private output directory (so the generated files and the
-# evidence of the real tree are not disturbed).  Writes seeded/RESULTS.json.
+# evidence of the real tree are not disturbed).  Merges the results into seeded/RESULTS.json.
 cd "$(dirname "$0")/.."
 export TIER=${1:-quick}; GLOB=${2:-*}; J=${3:-3}
 export CAMP=$(mktemp -d /tmp/wgcamp_XXXX)
@@ -22,5 +22,13 @@ one() {
 }
 export -f one
 ls -d seeded/$GLOB/ | xargs -P $J -I{} bash -c "one {}"
-(echo "{"; cat $CAMP/*/result | sed '$!s/$/,/'; echo; echo "}") > seeded/RESULTS.json
+(echo "{"; cat $CAMP/*/result | sed '$!s/$/,/'; echo; echo "}") > $CAMP/new.json
+/venv/bin/python - $CAMP/new.json <<'PY'
+import json, sys, os
+new = json.load(open(sys.argv[1]))
+old = json.load(open("seeded/RESULTS.json")) if os.path.exists("seeded/RESULTS.json") else {}
+old = {k: v for k, v in old.items() if os.path.isdir("seeded/" + k)}      # forget results of seeds that were removed
+old.update(new)
+json.dump(dict(sorted(old.items())), open("seeded/RESULTS.json", "w"), indent=1)
+PY
 rm -rf $CAMP
